@@ -9,6 +9,18 @@ pub open spec fn block_key(b: Block) -> Position { b.start_tag_position_range@.s
 /// `impl Ord for Block` as a specification (src/blocks.rs: start().cmp(other.start()))
 spec fn block_cmp(a: Block, b: Block) -> Ordering { pos_cmp(block_key(a), block_key(b)) }
 
+/// `pos_cmp` / `block_cmp` once more as PUBLIC functions (`pos_cmp` of prelude/blockp_types.rs is private, and
+/// a trait-impl method is public): lets the `Ord` / `PartialOrd` impl units carry a labelled `ensures`.
+/// Same definition, so the two agree by unfolding.
+pub open spec fn langc_pos_cmp(a: Position, b: Position) -> Ordering {
+    if a.line < b.line { Ordering::Less } else if a.line > b.line { Ordering::Greater }
+    else if a.character < b.character { Ordering::Less } else if a.character > b.character { Ordering::Greater }
+    else { Ordering::Equal }
+}
+pub open spec fn langc_block_cmp(a: Block, b: Block) -> Ordering {
+    langc_pos_cmp(a.start_tag_position_range@.start, b.start_tag_position_range@.start)
+}
+
 /// C03 "blocks are reported in source order": ascending start-tag positions (the clause
 /// `P1.post.sorted_by_start_tag` of group blockpairs, as a predicate)
 spec fn blocks_sorted(s: Seq<Block>) -> bool {
